@@ -12,6 +12,23 @@ from .arith import ceil_div_check, Unk
 GLOBAL = ("c", 255)
 
 
+def _list_count_guard(v, r, i):
+    """a count taken as len() of the chunk list: paths on which `len(np.split(arr, [cut])) > 1` is false are infeasible ("skip");
+    paths conditioned on the remainder part itself are not decided in the quotient/remainder domain ("unknown")"""
+    sp = [x for x in walk(v) if x[0] == "call" and x[1] == ("attr", ("glob", "np"), "split")]
+    if not any(x[0] == "call" and x[1] == ("glob", "len") and x[2] and x[2][0][0] in ("cat", "call") and x[2][0] != ("p", "data") for x in walk(v)) or not sp:
+        return None
+    gl = lits(r.guards(i))
+    for g, p in gl:
+        if g == mk_cmp("<", ("c", 1), lensym(sp[0])):
+            if not p:
+                return "skip"
+            continue
+        if any(x[0] == "sub" and x[1] == sp[0] and x[2] == ("c", 1) for x in walk(g)):
+            return "unknown"
+    return None
+
+
 class Layer:
     def __init__(self, ctx, fd):
         P = ctx.prog
@@ -96,6 +113,12 @@ def seg_ceil(ctx, L, rule="R-SEG-CEIL"):
                 except Unk as u:
                     ctx.unknown(rule, "cannot evaluate %s in the quotient/remainder domain (%s) at %s" % (pretty(v), u, loc(f, e.node)))
                     continue
+                lg = _list_count_guard(v, r, i)
+                if lg == "skip":
+                    continue
+                if not ok and lg == "unknown":
+                    ctx.unknown(rule, "%s: the count is the length of a list assembled under a condition on the split remainder at %s" % (inst, loc(f, e.node)))
+                    continue
                 n += 1
                 if ok:
                     ctx.holds(rule, inst, "%s : %s" % (pretty(v), detail))
@@ -116,6 +139,12 @@ def seg_ceil(ctx, L, rule="R-SEG-CEIL"):
                     ok, detail = ceil_div_check(pk, lensym(("p", "data")), L.seg)
                 except Unk as u:
                     ctx.unknown(rule, "cannot evaluate announced count %s (%s)" % (pretty(pk), u))
+                    continue
+                lg = _list_count_guard(pk, r, i)
+                if lg == "skip":
+                    continue
+                if not ok and lg == "unknown":
+                    ctx.unknown(rule, "%s: the count is the length of a list assembled under a condition on the split remainder" % inst)
                     continue
                 if ok and ms == lensym(("p", "data")):
                     ctx.holds(rule, inst)
